@@ -46,13 +46,13 @@ Definition H_END_OF_CODE := 4.
 (* host exceptions *)
 Inductive crash :=
 | CrIndex | CrType | CrName | CrAttr | CrKey | CrValue | CrOverflow | CrRuntime
-| CrAssert | CrStruct | CrTrapped | CrUnboundLocal | CrPowUnknown.
+| CrAssert | CrStruct | CrTrapped | CrUnboundLocal | CrSyntax | CrPowUnknown.
 
 Definition crash_id (k : crash) : Z :=
   match k with
   | CrIndex => 1 | CrType => 2 | CrName => 3 | CrAttr => 4 | CrKey => 5 | CrValue => 6
   | CrOverflow => 7 | CrRuntime => 8 | CrAssert => 9 | CrStruct => 10 | CrTrapped => 11
-  | CrUnboundLocal => 12 | CrPowUnknown => 99
+  | CrUnboundLocal => 12 | CrSyntax => 13 | CrPowUnknown => 99
   end.
 
 (* ---------- memory ---------- *)
